@@ -564,6 +564,66 @@ def set_palette_cases(rng, n):
     return c10.macro_cases(rng, n)
 
 
+
+UNWIND_PRELUDE = """
+pub struct OnDrop<F: FnOnce()>(pub Option<F>);
+impl<F: FnOnce()> Drop for OnDrop<F> { fn drop(&mut self) { if let Some(f) = self.0.take() { f() } } }
+"""
+
+
+def unwinding_part(ck, aspect):
+    """The assertion evaluated from a destructor WHILE THE THREAD IS UNWINDING from an earlier panic (fixture teardown after a
+    failed test body): `returns normally` must still mean `the value satisfies the pattern` (C01), and a value that satisfies the
+    pattern must still return normally (C02). A failing assertion there is a second panic - the process aborts - so every case
+    runs in a child process of its own (the program re-executes itself) and reports RETURNED / DIED."""
+    import e2e
+    n = 24 if ck.tier == "quick" else 120
+    base = t3.run_corpus(ck, "unwinding-base", n, per_bin=12, gen_stream="mixed")
+    t3.compare(ck, base, "unwinding-base")
+    live = [c for c in base if c.got[0] in ("pass", "fail") and c.expect[0] == "ok"]
+    if not live:
+        return
+    src = [t3.HEADER, UNWIND_PRELUDE]
+    for c in live:
+        src.append("mod ucase_%d {\nuse super::*;\n%s\npub fn run() {\nlet v: %s = %s;\nlet _g = OnDrop(Some(|| {\nassert_struct!(\n %s\n);\nprintln!(\"RETURNED\");\n}));\npanic!(\"the test body failed first\");\n}\n}\n" % (
+            c.id, c.decls_text, c.type_text, c.value_text, c.text))
+    src.append("fn main() {\n    let a: Vec<String> = std::env::args().collect();\n    if a.len() > 1 {\n        match a[1].as_str() {\n%s\n            _ => {}\n        }\n        return;\n    }\n" % "\n".join(
+        '            "%d" => ucase_%d::run(),' % (c.id, c.id) for c in live))
+    src.append("    for n in [%s] {\n        let o = std::process::Command::new(std::env::current_exe().unwrap()).arg(n.to_string()).output().unwrap();\n"
+               "        println!(\"UCASE {} {}\", n, if String::from_utf8_lossy(&o.stdout).contains(\"RETURNED\") { \"RETURNED\" } else { \"DIED\" });\n    }\n}\n" % ", ".join(str(c.id) for c in live))
+    proj = e2e.Project("unwinding")
+    got = {}
+    try:
+        proj.add_bin("unwind", "".join(src))
+        res = proj.build()
+        if not res["unwind"]["ok"]:
+            ck.notes.append("unwinding context: the program did not compile (%s): part skipped" % (res["unwind"]["diags"][0]["message"] if res["unwind"]["diags"] else "?"))
+            return
+        rc, out, err = proj.run("unwind")
+        for line in out.split("\n"):
+            f = line.split(" ")
+            if f[0] == "UCASE":
+                got[int(f[1])] = f[2]
+    finally:
+        proj.cleanup()
+    bad = 0
+    for c in live:
+        g = got.get(c.id)
+        want = "RETURNED" if not c.expect[1] else "DIED"
+        if g is None or g == want:
+            continue
+        bad += 1
+        desc = dict(t3.describe(c), context="the assertion runs in a destructor while the thread unwinds from an earlier panic", outcome=g, expected_outcome=want)
+        if aspect == "C01" and g == "RETURNED":
+            ck.report("passes-but-does-not-match:unwinding", "the assertion returned normally although the value does not satisfy the pattern (evaluated from a destructor during unwinding)", desc)
+        elif aspect == "C02" and g == "DIED":
+            ck.report("fails-but-matches:unwinding", "the assertion failed although the value satisfies the pattern (evaluated from a destructor during unwinding)", desc)
+    ck.corr_record("T3 unwinding context (each generated assertion evaluated from a destructor while its thread unwinds from an earlier panic, one child process per case: returned normally / died vs the specification's verdict)",
+                   len(got), len(got), bad, dict(cases=len(live), returned=sum(1 for v in got.values() if v == "RETURNED"), died=sum(1 for v in got.values() if v == "DIED")),
+                   samples=[dict(invocation="assert_struct!(%s)" % c.text[:160], value=c.value_text[:120], outcome=got.get(c.id)) for c in live[:2]],
+                   rule="the mixed stream of the typed generator (40% unperturbed values)")
+
+
 def check(ck, aspect, theorems, t2_parts=("body", "status")):
     ck.prove(theorems)
     ck.build_harness("inproc")
@@ -653,6 +713,8 @@ def check(ck, aspect, theorems, t2_parts=("body", "status")):
         ck.corr_record("T3 %s (%s)" % (name, what), len(fam), len(fam), len(mism), dict(stats),
                        samples=[dict(invocation="assert_struct!(%s)" % c.text, value=c.value_text, setup=getattr(c, "setup", ""), impl=c.got[0], spec=str(c.expect)[:120]) for c in fam[:2]],
                        rule="systematic family, every case distinct")
+    if aspect in ("C01", "C02"):
+        unwinding_part(ck, aspect)
     ck.notes.append("forms exercised: " + ", ".join("%s=%d" % kv for kv in sorted(forms.items())))
     if t2_mm and not found_input:
         ck.report("corr:T2-body", "the model of the code generator no longer matches the real expansion (%d inputs differ); the theorems of %s are about a model the code has moved away from" % (len(t2_mm), aspect),
